@@ -165,9 +165,24 @@ func (ex *Exec) bigMethod(st *PState, fn *ssa.Function, args []Value) Value {
 		i := args[1].(*Term)
 		c, ok := i.constInt()
 		if !ok {
-			fail("big.Int.Bit with symbolic index")
+			if i.lo == nil || i.hi == nil || i.lo.Sign() < 0 || !i.hi.IsInt64() || i.hi.Int64() > 8192 {
+				// negative indices panic in math/big; callers guard them
+				if i.hi == nil || !i.hi.IsInt64() || i.hi.Int64() > 8192 {
+					fail("big.Int.Bit with unbounded symbolic index")
+				}
+			}
+			lo := int64(0)
+			if i.lo != nil && i.lo.Sign() > 0 {
+				lo = i.lo.Int64()
+			}
+			res := ts.Int64(0)
+			for k := i.hi.Int64(); k >= lo; k-- {
+				b := ex.modC(ex.divC(x, pow2(uint(k))), bi(2))
+				res = ts.Ite(ts.Eq(i, ts.Int64(k)), b, res)
+			}
+			return res
 		}
-		return ts.Mod(ts.Div(x, ts.Int(pow2(uint(c.Int64())))), ts.Int64(2))
+		return ex.modC(ex.divC(x, pow2(uint(c.Int64()))), bi(2))
 	case "BitLen":
 		return ex.bitLenTerm(L(0), "big.Int.BitLen")
 	case "IsInt64":
